@@ -192,6 +192,10 @@ func (s *scheduler) checkFatal(g *gor) {
 	case abortPath:
 		g.panicV = nil
 		panic(pv)
+	case string:
+		// the interpreter itself panicked (unsupported construct): not a target panic
+		g.panicV = nil
+		panic(abortPath{"engine: " + pv})
 	default:
 		// an unrecovered panic in any goroutine crashes the process
 		g.panicV = nil
